@@ -1,2 +1,2 @@
--- stub: replaced by the family's driver
-def main : IO Unit := IO.println "family kernels: no driver yet"
+import PrimitivModel.Driver.KernelsDrv
+def main : IO Unit := Primitiv.Drv.KernelsDrv.main
